@@ -11,6 +11,10 @@
 #include <unistd.h>
 #include "qlibc.h"
 #include "vfc.h"
+/* the print helpers (debug()) run on real contents now and then: C11 covers what they read */
+static FILE *DEVNULL; static unsigned long DBGCTR;
+#define DEBUG_NOW() (((++DBGCTR) % 61) == 0 && (DEVNULL || (DEVNULL = fopen("/dev/null", "w"))))
+
 #include "ref_hash.h"
 
 static rng_t R;
@@ -63,7 +67,11 @@ static int lk(int i) { return oF ? i : MN - 1 - i; }
 static int m_first_match(const char *name) { for (int i = 0; i < MN; i++) if (eq(M[lk(i)].name, name)) return lk(i); return -1; }
 
 /* ---- structure + order check --------------------------------------------- */
+
+/* optional out-parameters are NULL in one call out of four; the variable is preset to what the callee would have stored */
+static size_t *optout(size_t *p, size_t expect) { if (rng_chance(&R, 1, 4)) { *p = expect; vf_count("calls_with_null_out_parameter", 1); return NULL; } return p; }
 static void order_check(void) {
+    if (DEBUG_NOW()) { T->debug(T, DEVNULL); vf_count("debug_prints", 1); }
     vf_count("order_compares", 1);
     if (T->size(T) != (size_t)MN) { judge("C08", "size", "size()=%zu model=%d", T->size(T), MN); return; }
     if (MN == 0) { if (T->first || T->last) judge("C08", "links", "empty table has first/last set"); return; }
@@ -137,7 +145,7 @@ static void op_get(const char *name) {
     if (api == 1 && mi >= 0 && (M[mi].v[M[mi].vl - 1] != 0 || strlen((char *)M[mi].v) + 1 != M[mi].vl)) api = 0;
     size_t sz = 999; errno = 0; void *d;
     vf_log("get[%d,newmem=%d] %s", api, newmem, name);
-    if (api == 0) d = T->get(T, name, &sz, newmem); else { d = T->getstr(T, name, newmem); sz = d ? strlen(d) + 1 : 0; }
+    if (api == 0) d = T->get(T, name, optout(&sz, mi >= 0 ? M[mi].vl : sz), newmem); else { d = T->getstr(T, name, newmem); sz = d ? strlen(d) + 1 : 0; }
     int e = errno;
     vf_count(mi >= 0 ? "get_hit" : "get_miss", 1);
     if (mi >= 0) { if (!d) judge("C08", "get-miss", "get(%s) returned NULL", name);
